@@ -333,7 +333,9 @@ fn convert_case(ctx: &Ctx, st: &mut Stats, edges: &[(String, String)], undirecte
 fn convert_job(ctx: &Ctx, job: usize, jobs: usize, thorough: bool) -> Stats {
     let mut st = Stats::new();
     let mut rng = Rng::stream(ctx.seed, "C18.convert", job as u64);
-    let names = ["a", "b", "c", "d", "e"];
+    // name families: plain; one name a prefix of another followed by a character below '_' (digit,
+    // upper case, '-'); names containing the colour suffix pattern
+    let name_sets: [[&str; 5]; 4] = [["a", "b", "c", "d", "e"], ["v1", "v10", "v1X", "v", "v100"], ["1", "10", "100", "2", "20"], ["a_c0", "a", "a_c1", "a_c", "c0"]];
     let mut k = 0usize;
     // all digraphs on <= 3 vertices as edge lists, with presentation quirks
     for nv in 0..=3usize {
@@ -343,6 +345,7 @@ fn convert_job(ctx: &Ctx, job: usize, jobs: usize, thorough: bool) -> Stats {
             if k % jobs != job {
                 continue;
             }
+            let names = &name_sets[(k / jobs) % name_sets.len()];
             let mut edges: Vec<(String, String)> = pairs.iter().enumerate().filter(|(i, _)| (m >> i) & 1 == 1).map(|(_, (a, b))| (names[*a].to_string(), names[*b].to_string())).collect();
             rng.shuffle(&mut edges);
             for undirected in [false, true] {
@@ -369,6 +372,7 @@ fn convert_job(ctx: &Ctx, job: usize, jobs: usize, thorough: bool) -> Stats {
             if nv == 5 && m % 7 != 3 {
                 continue;
             }
+            let names = &name_sets[(k / jobs) % name_sets.len()];
             let edges: Vec<(String, String)> = pairs.iter().enumerate().filter(|(i, _)| (m >> i) & 1 == 1).map(|(_, (a, b))| if rng.chance(1, 2) { (names[*a].to_string(), names[*b].to_string()) } else { (names[*b].to_string(), names[*a].to_string()) }).collect();
             for colors in 0..=3usize {
                 convert_case(ctx, &mut st, &edges, rng.chance(1, 2), false, Some(colors), &format!("{}-{}-k{}", job, k, colors));
@@ -376,6 +380,36 @@ fn convert_job(ctx: &Ctx, job: usize, jobs: usize, thorough: bool) -> Stats {
         }
     }
     if job == 0 {
+        // --colors on GENERATED graphs whose vertex names have prefix relations (v1 / v10 / v11): a complete
+        // graph on V vertices is k-colourable iff k >= V
+        for (v, kcol) in [(11usize, 1usize), (12, 2), (3, 3), (3, 2)] {
+            st.evals += 1;
+            st.bump("generated_complete_with_colors");
+            let args: Vec<String> = vec![v.to_string(), "--complete".into(), "-u".into(), "--colors".into(), kcol.to_string()];
+            let out = cli::run(&ctx.bin("random_graph_gen"), &args, None, None, None, Duration::from_secs(120));
+            if out.timed_out {
+                continue;
+            }
+            let case = json!({"kind": "complete-colors", "v": v, "k": kcol});
+            if !out.ok() {
+                st.violate("c18.colors", format!("C18:colors:generated-failed:{}", out.panic_site()), format!("random_graph_gen {:?}: {}", args, out.status_string()), case);
+                continue;
+            }
+            match parse_output(&out.stdout_str(), false, true) {
+                Err(m) => st.violate("c18.colors", "C18:colors:unparsable".into(), m, case),
+                Ok(edges) => {
+                    // copies of distinct vertices with the same colour must never be adjacent in K_V's reduction
+                    let bad = edges.iter().find(|(a, b)| {
+                        let (va, ca) = a.rsplit_once("_c").unwrap_or((a, ""));
+                        let (vb, cb) = b.rsplit_once("_c").unwrap_or((b, ""));
+                        va != vb && ca == cb
+                    });
+                    if let Some((a, b)) = bad {
+                        st.violate("c18.colors", "C18:colors:same-colour-edge-between-adjacent-vertices".into(), format!("random_graph_gen {:?}: output edge {},{} joins same-colour copies of adjacent vertices (K_{} would become {}-colourable)", args, a, b, v, kcol), case);
+                    }
+                }
+            }
+        }
         convert_case(ctx, &mut st, &[], false, false, None, "empty");
         convert_case(ctx, &mut st, &[], true, true, Some(2), "empty-col");
         convert_case(ctx, &mut st, &[], false, false, Some(0), "empty-col0");
@@ -395,7 +429,7 @@ pub fn run(ctx: &Ctx) -> (Stats, Spec) {
     let mut st = crate::report::merge_all(parts);
     st.exhaustive.push("every request (V <= 6, E <= max+2, -u, --dot, stdout / -o) and --complete for V <= 6; --convert on all digraphs with <= 3 vertices; --colors k (k = 0..3) on all loop-free graphs with 2..4 vertices".into());
     let spec = Spec {
-        rule: "all (V in 0..6, E in 0..max+2, -u, --dot, stdout or -o) requests, feasible ones repeated 10 [quick] / 60 [thorough] times (every run is a fresh random sample; the number of distinct outputs seen is reported), --complete with and without an edge count, missing arguments; --convert on every digraph with <= 3 vertices (shuffled rows; exact duplicates and self-loops without -u; reversed pairs under -u), --colors 0..3 on every loop-free graph with 2..4 (thorough: sampled 5) vertices. distinct = (request, output); non-trivial = 0 < E < max resp. non-empty input.".into(),
+        rule: "all (V in 0..6, E in 0..max+2, -u, --dot, stdout or -o) requests, feasible ones repeated 10 [quick] / 60 [thorough] times (every run is a fresh random sample; the number of distinct outputs seen is reported), --complete with and without an edge count, missing arguments; --convert on every digraph with <= 3 vertices (shuffled rows; exact duplicates and self-loops without -u; reversed pairs under -u), --colors 0..3 on every loop-free graph with 2..4 (thorough: sampled 5) vertices, with four vertex-name families (plain; one name a prefix of another: v1 / v10 / v1X, 1 / 10 / 100; names containing the colour suffix pattern), and --colors on generated complete graphs with 11-12 vertices. distinct = (request, output); non-trivial = 0 < E < max resp. non-empty input.".into(),
         assumptions: vec![
             "uniformity of the random sample is not claimed by the property and not tested".into(),
             "self-loops and exact duplicates are not given to --convert -u / --colors (their treatment is a convention the statement does not fix)".into(),
